@@ -498,3 +498,36 @@ Definition reveal (o : iopts) (sel : list path) (claims : list (string * val)) :
 
 (* the holder's choice as disclosures: the issued ones whose site is selected *)
 Definition choose (sel : list path) (ds : list disc) : list disc := filter (fun d => memp (d_salt d) sel) ds.
+
+(* ---------- the credential level (component/models/verifiable/credential_sdjwt.go) ---------- *)
+(* issuer.NewFromVC as called by Credential.MakeSDJWT (structured claims, "id" not selectively disclosable): the
+   credential subject is issued on its own, _sd_alg is moved next to it — inside the "vc" claim for v2 (the JWT
+   claims [outer] around it), at the top level for v5 (ToSDJWTV5CredentialPayload has no "vc" claim).
+   [outer] / [vcm]: the other members of the JWT payload / of the credential, carried unchanged. *)
+Definition issue_vc (o : iopts) (subject outer vcm : list (string * val)) : res (val * list disc) :=
+  if key_exists_sd (VObj subject) then Err EInvalid
+  else
+    let tail cs := [("credentialSubject", cs); (SDALG, VStr (alg_name (o_alg o)))] in
+    if o_v5 o then
+      bind (issue5 o false [] (VObj subject)) (fun t =>
+        Ok (VObj (outer ++ vcm ++ tail (VObj (t_vis t ++ sd5 o [] (t_lvl t)))),
+            decoy_discs [] (o_decoys o) ++ t_lvl t ++ t_nst t))
+    else
+      let t := issue2 o [] (VObj subject) in
+      Ok (VObj (outer ++ [("vc", VObj (vcm ++ tail (VObj (t_vis t ++ [sd2 o [] (t_lvl t)]))))]), t_lvl t ++ t_nst t).
+
+(* clearEmpty: objects left without members are removed from the displayed subject *)
+Fixpoint clear_empty (v : val) {struct v} : val :=
+  match v with
+  | VObj m =>
+      VObj (flat_map (fun kv => match snd kv with
+                                | VObj _ => match clear_empty (snd kv) with VObj [] => [] | y => [(fst kv, y)] end
+                                | _ => [kv]
+                                end) m)
+  | _ => v
+  end.
+
+(* CreateDisplayCredentialMap on the credential subject: GetDisclosedClaims over the given disclosures (no
+   VerifyDisclosuresInSDJWT here), then clearEmpty *)
+Definition display_subject (a : N) (cs : val) (given : list disc) : res val :=
+  bind (resolve true (map (digest a) given) cs) (fun y => Ok (clear_empty y)).
